@@ -36,7 +36,7 @@ claimed = {
          "A1-A4, A6, A7, A10; client code mutating exported tables is outside the property", "5"),
  "C16": ("proof", "Sufficient condition decided deductively (same obligations as C15): all operations named in the property write only goroutine-owned memory and only read shared objects and tables, hence no data race and sequential equivalence by the Go memory model + determinism (meta argument, stated as such). Does not decide correctly synchronised shared mutable state (would be reported) nor races inside dependencies (A8).",
          "A8 (dependencies race-free), A1-A4, A6, A7, A10; the schedule quantifier is discharged by a meta argument, not by the solver", "5"),
- "C17": ("proof", "One postcondition per exported report field (63 own fields + the embedded reports' fields) relating it to the exact summary of the title / value-name function of the metric it is named after at the requested language, to the same level's Encode/Score/Severity call (call-site ghosts) and to the version label; option lists abstracted by the selected language, tied to the real closures by exact execution of newOptions with 0/1/2 options.",
+ "C17": ("proof", "One postcondition per exported report field (63 own fields + the embedded reports' fields) relating it to the exact summary of the title / value-name function of the metric it is named after at the requested language, to the same level's Encode/Score/Severity call (call-site ghosts) and to the version label; option lists abstracted by the selected language, tied to the real closures by exact execution of newOptions with 0/1/2/3/4 options.",
          "A5, A7, A10, A-opt (option-list abstraction)", "5"),
  "C18": ("proof", "All 52 name functions executed symbolically (symbolic enumeration integer and language tag): non-empty for every input, Unknown/未定義 off-range; via exact function summaries: English for every tag other than the Japanese tag, pairwise distinct names per metric and language (ground lemma families), Modified value name = base value name.",
          "A7 (language.Tag compares with ==), A10", "5"),
